@@ -18,7 +18,7 @@ from ..common import rng_for, b2j
 
 LEVEL = "exploration"
 SHARDS = {"quick": 1, "thorough": 16}
-REQUIRED = ("roundtrips_checked", "leaf_events", "holes_checked", "overlap_cases", "offsets_nonzero")
+REQUIRED = ("position_sweep_cases", "roundtrips_checked", "leaf_events", "holes_checked", "overlap_cases", "offsets_nonzero")
 MIN_NONTRIVIAL = 100
 RULE = {
     "quick": "seeded generator of declaration families over the whole language (Int all widths, Data in 7 sizing modes, Bits runs, "
@@ -84,7 +84,7 @@ def one_case(run, bench, rng, raw, off):
         return
     spans, consumed, overlap, extent = driver.observed_spans(roots, off)
     run.count("leaf_events", len(spans))
-    witness = {"source": driver.src_of(bench), "raw": b2j(raw), "offset": off, "spans": spans}
+    witness = {"source": driver.src_of(bench), "raw": b2j(raw), "offset": off, "spans": spans, "fam": fam}
     if off:
         run.count("offsets_nonzero")
     # secondary oracle: the model must see the same consumed bytes
@@ -135,11 +135,56 @@ def one_case(run, bench, rng, raw, off):
         run.sample({"source": driver.src_of(bench), "raw": raw, "offset": off, "spans": spans, "packed": pr.pkt})
 
 
+def position_sweep(run, bench, rng, raw, off):
+    """Dense overlap geometry: every one-byte field that steers a position (at/shift target) is set to
+    every small value, so fields land before, flush against, one byte into, and fully inside
+    already consumed bytes."""
+    fam = bench.fam
+    st, mr = harness.model_parse(fam, raw, off)
+    if st != "ok":
+        return
+    steer = []
+    for fe in mr.trace.fields:
+        if fe["end"] - fe["start"] != 1 or fe["t"] not in ("int", "bits"):
+            continue
+        decl = fam["decls"][fe["cls"]]
+        f = next((x for x in decl["fields"] if x["name"] == fe["name"]), None)
+        if f is not None and "pos" in (f.get("hint") or {}) and fe["start"] < len(raw):
+            steer.append(fe["start"])
+    top = min(mr.trace.extent - off + 3, 40)
+    for pos in steer[:2]:
+        for v in range(0, max(top, 4)):
+            if raw[pos] == v:
+                continue
+            b = bytearray(raw)
+            b[pos] = v
+            run.count("position_sweep_cases")
+            one_case(run, bench, rng, bytes(b), off)
+
+
 def run(run):
     shard, nshards = run.shard
     rng = rng_for(run.seed, "c01", shard)
     nfam = 450 if run.tier == "quick" else 2500
     ninputs = 14
+    # second population: positioning-heavy declarations (several at/shift fields, backward targets) so that
+    # fields land in holes, flush against and one byte into other fields
+    overlap_profile = {"p_move": 0.6, "p_backward_at": 0.5, "max_fields": 5, "max_depth": 2, "p_rep": 0.08, "p_opt": 0.05,
+                       "moves": {"at": 7, "shift": 3, "aligned": 1}, "references": {"innermost-pkt": 5, "begins": 2, "current-offset": 1},
+                       "kinds": {"int": 45, "data": 40, "bits": 5, "ref": 6, "sel": 0, "em": 4}, "int_widths": [1, 1, 2, 2, 3, 4]}
+    for bench in driver.families(run, rng, overlap_profile, VARIANTS, nfam // 3, tag="c01o"):
+        run.count("positioning_heavy_families")
+        for j in range(8):
+            raw, oc = model.generate_input(bench.fam, rng, offset=0)
+            run.count("gen_" + oc)
+            try:
+                one_case(run, bench, rng, raw, 0)
+                if j < 4:
+                    position_sweep(run, bench, rng, raw, 0)
+            except RecursionError:
+                run.count("recursion_skipped")
+        if run.counters["violations"] > 30:
+            return
     for bench in driver.families(run, rng, profile_for(run), VARIANTS, nfam, tag="c01"):
         offs = driver.start_offsets(bench.fam, rng)
         for j in range(ninputs):
@@ -148,6 +193,8 @@ def run(run):
             run.count("gen_" + oc)
             try:
                 one_case(run, bench, rng, raw, off)
+                if j < 3:
+                    position_sweep(run, bench, rng, raw, off)
             except RecursionError:
                 run.count("recursion_skipped")
         if run.counters["violations"] > 30:
@@ -155,8 +202,8 @@ def run(run):
 
 
 def replay(run, rec):
-    w = rec["witness"]
+    w = common.from_json(rec["witness"])
     d = common.scratch_dir("bvf_replay_")
-    module, path = render.load_source(w["source"], d)
-    print(w["source"])
-    print("replay is manual for C01: classes are defined in", path)
+    bench = harness.Bench(w["fam"], VARIANTS, d)
+    bench.skeleton = "replay"
+    one_case(run, bench, None, w["raw"], w.get("offset", 0))
